@@ -54,7 +54,37 @@ def sig_pure_forgets_history(v: dict) -> bool:
         d for d in [v["defn"]] if any(k == "history" for k in d["kind"].values()))
 
 
+def sig_nested_done_event_stops_bubbling(v: dict) -> bool:
+    """In the step a done.state event was fired for a state X that has a proper ancestor (other
+    than the root) which also declares onDone: the upward walk stopped at X."""
+    d = v["defn"]
+    owners = {s for s in d["states"] if d["tix"][s]["onDone"]}
+    done_of = {d["doneEv"][s]: s for s in d["states"]}
+    for e in v.get("out") or []:
+        if e[0] == "enq" and e[1] in done_of:
+            x = done_of[e[1]]
+            a = d["parent"][x]
+            while a != "NONE":
+                if a in owners and a != d["root"]:
+                    return True
+                a = d["parent"][a]
+    return False
+
+
+def sig_transition_executed_after_done(v: dict) -> bool:
+    """A further transition executed (on_transition entry) after the `done` entry of the same step."""
+    seen_done = False
+    for e in v.get("out") or []:
+        if e[0] == "done":
+            seen_done = True
+        elif seen_done and e[0] == "on_transition" and e[1] == "external":
+            return True
+    return False
+
+
 SIGNATURES: Dict[str, Callable[[dict], bool]] = {
+    "transition_executed_after_done": sig_transition_executed_after_done,
+    "nested_done_event_stops_bubbling": sig_nested_done_event_stops_bubbling,
     "history_target_inside_parallel_parent": sig_history_target_inside_parallel_parent,
     "pure_forgets_history": sig_pure_forgets_history,
 }
